@@ -37,6 +37,11 @@ CLAIMED = {
    note="Trusted: ring layer over fr.Element; math/big.NewInt and Element.Exp interpreted (uninterpreted power); fft.Generator opaque (captured). Preconditions: non-empty vectors for Eval/Sum; GetCoeff for 0 <= shift <= 2^20. Not under contract: Lagrange-basis and bit-reversed evaluation, FFT-based conversions, ratios, quotient, expressions, serialisation, InterpolateOnRange, MultiLin.Evaluate/Eq. Two defects found and repaired (Evaluate ignored shifts outside 0..5; Add panicked on an empty destination).",
    technique="contract-based deductive verification: loop invariants with quantifiers and recursive SMT specification functions over symbolic coefficient arrays, identical-slice alias partitions, ghost capture of opaque callee arguments at call-site cut points",
    design="§10.4 C20"),
+ "C11": dict(
+   text="Deductive proof, for the KZG packages of 7 pairing curves, that eval is Horner's value; dividePolyByXminusA returns the synthetic-division quotient (suffix Horner values) and leaves f(a) - fa in f[0]; Commit refuses exactly empty and oversized polynomials and otherwise returns the multi-exponentiation of the SRS prefix by p; Open returns ClaimedValue = p(point), leaves p unchanged and succeeds on constant polynomials; Verify returns nil only if the pairing check was made on (totalG1Aff, proof.H) with the key's lines and succeeded, totalG1 being built as [f(a)]G1 + [-a]H - commitment by exactly those calls on those operands; fold / FoldProof compute the inner product with the powers of the derived challenge, refuse mismatched and empty batches and keep H; BatchVerifySinglePoint accepts only if folding and verification accepted.",
+   note="Trusted: ring layer over fr.Element; group elements and pairing lines opaque; MultiExp, JointScalarMultiplication, conversions, PairingCheckFixedQ and deriveGamma are opaque calls captured at the call site; the textbook identity f(X) - f(a) = q(X)(X - a) for the suffix-Horner quotient. Not under contract: completeness/soundness of the pairing equation (C05, C04), BatchVerifyMultiPoints, BatchOpenSinglePoint, SRS generation and MPC setup, serialisation; Verify performs no subgroup tests. Two defects found and repaired (Open on constant polynomials, FoldProof on an empty batch).",
+   technique="contract-based deductive verification: loop invariants against recursive SMT specification functions over symbolic coefficient arrays (with snapshot semantics for old(slice)), acceptance-implies-check clauses with ghost capture of opaque callee arguments and results, callee contracts applied across compatible layers",
+   design="§10.4 C11"),
  "C12": dict(
    text="Deductive proof, for the ECDSA packages of 10 curves and the EdDSA packages of 8 twisted-Edwards curves, that the signature decoders accept exactly (ECDSA, both directions) / only (EdDSA) byte strings of the right length with 0 < r, s < n (EdDSA: 0 < y(R) < q after clearing the sign bit, 0 < S < order, R decoded and on the curve), and that the verifiers refuse on every decoding error and otherwise return exactly the textbook comparison: ECDSA [(x(U) mod n) == r] for U = JointScalarMultiplicationBase(A, m*s^-1 mod n, r*s^-1 mod n); EdDSA [cofactor][S]Base == [cofactor](R + [H]A) computed on exactly those operands in that order, key and both sides tested on the curve; recoverP accepts only 0 < r < n and sets x = r + n*bit1(v).",
    note="Trusted: math/big modelled as mathematical integers (documented method meanings assumed; Mod/ModInverse/Exp/ModSqrt uninterpreted); fr.Modulus() = pinned modulus; scalar multiplication, point addition, on-curve tests, HashToInt and hash objects are opaque calls captured at call sites. Not under contract: completeness (honest signatures verify: needs C03), Sign/GenerateKey/nonce, key serialisation, the bytes hashed by EdDSA.",
@@ -80,7 +85,6 @@ NA = {
  "C05": "bilinearity and non-degeneracy of the optimal-ate pairing are theorems about divisors; no first-order contract on the Miller loop steps that z3/cvc5 can discharge implies them (tower arithmetic used by the pairing is proved under C06)",
  "C09": "assembly bodies cannot be lowered by go/ssa; the portable Go variants are proved against the same contracts under C01 (both build configurations) but no differential harness for the assembly paths was built, so the property is not claimed",
  "C10": "equality with the DFT needs the Cooley-Tukey induction over a goroutine-split recursion; a recursive specification mirroring the code would restate the algorithm, not the property",
- "C11": "KZG verification reduces to the pairing-check relation (C05, not applicable) over MSM results (C04, not applicable); acceptance-implies-check contracts in the style of C17 were not written in the time available",
  "C18": "purity/repeatability needs inferred frames for every exported entry point and a treatment of goroutines; only the modifies clauses of the functions under contract are checked (reported under the respective properties), which does not carry the property",
 }
 
